@@ -127,6 +127,10 @@ func (t *BaseTraveler) GetCurrent() *DataElement {
 }
 
 func (t *BaseTraveler) GetCurrentID() string {
+	if t.Current == nil {
+		//a null traveler (outNull/inNull, select of an absent mark) has no id
+		return ""
+	}
 	return t.Current.ID
 }
 
